@@ -26,7 +26,7 @@ static unsigned char held[MAXN + 1];
 static int cmp(const void *a, const void *b, void *p)
 {
     e_check_priv(p);
-    return ((const struct el *)a)->key - ((const struct el *)b)->key;
+    return e_cmp3(((const struct el *)a)->key, ((const struct el *)b)->key);
 }
 static int id_of_el(const void *e)
 {
@@ -203,7 +203,7 @@ static void drv_ser(jb_t *b)
     memset(member, 0, sizeof member); malformed = 0;
     mark(bt->root, 0);
     jb_printf(b, "{\"root\":%d,\"size\":", id_of_bn(bt->root));
-    jb_size(b, bt->size);
+    jb_size(b, RB ? cstl_rbtree_size(&T[cur]) : cstl_bintree_size(bt));   /* the public accessor, not the field */
     jb_printf(b, ",\"cur\":%d,\"osize\":", cur);
     jb_size(b, T[1 - cur].t.size);
     jb_printf(b, ",\"oroot\":%d,\"bad\":%s", id_of_bn(T[1 - cur].t.root), malformed ? "true" : "false");
